@@ -48,14 +48,16 @@ func dig(parts ...interface{}) string {
 		fmt.Fprintf(h, "%v|", p)
 	}
 	// errors are values the caller may keep: every error seen so far must still read as it did
-	for _, he := range heldErrors {
-		if he.err.Error() != he.text {
-			fmt.Fprintf(h, "held error changed from %q to %q|", he.text, he.err.Error())
+	if holdErrors {
+		for _, he := range heldErrors {
+			if he.err.Error() != he.text {
+				fmt.Fprintf(h, "held error changed from %q to %q|", he.text, he.err.Error())
+			}
 		}
-	}
-	for _, p := range parts {
-		if e, ok := p.(error); ok && e != nil {
-			heldErrors = append(heldErrors, heldError{e, e.Error()})
+		for _, p := range parts {
+			if e, ok := p.(error); ok && e != nil {
+				heldErrors = append(heldErrors, heldError{e, e.Error()})
+			}
 		}
 	}
 	d := fmt.Sprintf("%x", h.Sum(nil)[:12])
@@ -83,6 +85,9 @@ type heldError struct {
 }
 
 var heldErrors []heldError
+
+// holdErrors: sequential histories only (the list is harness state shared by all calls of a process).
+var holdErrors bool
 
 func scribble(b []byte) {
 	b = b[:cap(b)]
@@ -462,7 +467,7 @@ func init() {
 	}})
 }
 
-var errorOps = []string{"SignBadDigestLen10", "SignBadDigestLen33", "SignCtxTooLong256", "SignCtxTooLong300", "BatchCtxTooLong256", "BatchBadDigest33Swallowed", "X25519BadPointLen5", "X25519BadPointLen31"}
+var errorOps = []string{"SignBadDigestLen10", "SignBadDigestLen33", "SignCtxTooLong256", "SignCtxTooLong300", "BatchCtxTooLong256", "BatchBadDigest33Swallowed", "X25519BadPointLen5", "X25519BadPointLen31", "BatchArgCounts", "BatchFailingEntropy4"}
 
 func init() {
 	mk := func(name string, f func() string) { c15ops = append(c15ops, c15op{name, nil, f}) }
@@ -491,6 +496,16 @@ func init() {
 		f := fixtures()
 		msgs := [][]byte{f.digest, f.digest, make([]byte, 33), f.digest}
 		all, valid, e := ed25519.VerifyBatch(rt.NewRng(1, "c15"), f.batchPub[:4], msgs, f.batchSig[:4], &ed25519.Options{Hash: crypto.SHA512})
+		return dig(all, valid, e)
+	})
+	mk("BatchArgCounts", func() string {
+		f := fixtures()
+		all, valid, e := ed25519.VerifyBatch(rt.NewRng(1, "c15"), f.batchPub[:4], f.batchMsg[:3], f.batchSig[:4], &ed25519.Options{})
+		return dig(all, valid, e)
+	})
+	mk("BatchFailingEntropy4", func() string {
+		f := fixtures()
+		all, valid, e := ed25519.VerifyBatch(failingReader{}, f.batchPub[:4], f.batchMsg[:4], f.batchSig[:4], &ed25519.Options{})
 		return dig(all, valid, e)
 	})
 	for _, n := range []int{5, 31} {
@@ -584,6 +599,7 @@ func c15Child(payload []byte) interface{} {
 	resp := &c15resp{NGlobals: len(init0), SyncUses: rt.SyncUses}
 	switch req.Mode {
 	case "seq":
+		holdErrors = true
 		var res []string
 		for _, o := range req.Ops {
 			res = append(res, c15ops[o].run())
@@ -689,8 +705,22 @@ func tail(s string) string {
 
 func opNames(ops []int) string {
 	var n []string
-	for _, o := range ops {
-		n = append(n, c15ops[o].name)
+	for i := 0; i < len(ops); {
+		j := i
+		for j < len(ops) && ops[j] == ops[i] {
+			j++
+		}
+		if j-i > 3 {
+			n = append(n, fmt.Sprintf("%s x%d", c15ops[ops[i]].name, j-i))
+		} else {
+			for k := i; k < j; k++ {
+				n = append(n, c15ops[ops[k]].name)
+			}
+		}
+		i = j
+	}
+	if len(n) > 40 {
+		n = append(n[:40], fmt.Sprintf("... (%d calls)", len(ops)))
 	}
 	return strings.Join(n, ",")
 }
@@ -823,6 +853,31 @@ func jobC15hist(c *rt.Ctx) {
 		}
 	}
 	c.Require("history/error-pairs")
+	// long runs: every main operation 1030 times in one process (past its 256th and 1024th call), the
+	// whole alphabet in rotation for 1030 calls, and (thorough) the cheap operations 66000 times (past
+	// the 65536th call): counters, pools and caches that wrap, fill up or evict only after many calls
+	longN := 1030
+	rep := func(o, k int) []int {
+		out := make([]int, k)
+		for i := range out {
+			out[i] = o
+		}
+		return out
+	}
+	for o := 0; o < n; o++ {
+		seqs = append(seqs, rep(o, longN))
+	}
+	rot := make([]int, longN)
+	for i := range rot {
+		rot[i] = i % n
+	}
+	seqs = append(seqs, rot)
+	if c.Thorough() {
+		for _, nme := range []string{"VerifyGood", "SignPure", "Batch4OneBad", "VerifyBadSigSameKeyMsg", "Batch5FailingEntropy"} {
+			seqs = append(seqs, rep(opIx(nme), 66000))
+		}
+	}
+	c.Require("history/long-run")
 	sort.SliceStable(seqs, func(i, j int) bool { return len(seqs[i]) < len(seqs[j]) })
 	states := map[string]bool{}
 	for _, seq := range seqs {
@@ -835,7 +890,9 @@ func jobC15hist(c *rt.Ctx) {
 			continue
 		}
 		c.Step(len(seq))
-		if len(seq) == 3 && (strings.Contains(c15ops[seq[0]].name, "Bad") || strings.Contains(c15ops[seq[0]].name, "TooLong")) {
+		if len(seq) >= longN {
+			c.Class("history/long-run")
+		} else if len(seq) == 3 && (strings.Contains(c15ops[seq[0]].name, "Bad") || strings.Contains(c15ops[seq[0]].name, "TooLong")) {
 			c.Class("history/error-pairs")
 		} else if strings.HasPrefix(c15ops[seq[0]].name, "Refused/") {
 			c.Class("history/refused-then-sentinel")
@@ -915,6 +972,13 @@ func c15scenarios(thorough bool) []scenario {
 		{"GenerateKey", "NewKeyFromSeed", "NewKeyFromSeed", "GenerateKey"}, {"Batch3", "Batch65", "Batch65", "Batch3"}, {"Batch4OneBad", "Batch4Good", "VerifyBad", "VerifyGood"},
 		{"SignPh", "SignPure", "Batch5Good", "Batch65"}, {"EdPublicKeyToX25519", "X25519Base", "EdPrivateKeyToX25519", "X25519Generic"}, {"VerifyGood", "VerifyBadSigSameKeyMsg", "VerifyKeySignBitFlipped", "VerifyGood"}} {
 		out = append(out, scenario{[][]int{{ix(q[0]), ix(q[1])}, {ix(q[2]), ix(q[3])}}})
+	}
+	// a call that is refused (argument validation, failing entropy, bad digest) next to a call that is
+	// under way: what the refused call releases, resets or reports must not touch the other call
+	for _, e := range errorOps {
+		for _, m := range []string{"Batch4OneBad", "Batch5Good", "Batch65", "SignPure", "SignCtx", "VerifyGood"} {
+			out = append(out, scenario{[][]int{{ix(e)}, {ix(m)}}})
+		}
 	}
 	// history then concurrency: every operation once, followed by concurrent verifications / signatures
 	for o := 0; o < nMainOps; o++ {
